@@ -884,15 +884,46 @@ func rangeLen(start, stop, step int) int {
 }
 
 func (r rangeValue) Slice(start, end, step int) Value {
-	newStart := r.start + r.step*start
-	newStop := r.start + r.step*end
-	newStep := r.step * step
-	return rangeValue{
-		start: newStart,
-		stop:  newStop,
-		step:  newStep,
-		len:   rangeLen(newStart, newStop, newStep),
+	// mulAdd returns a + b*c and whether it is representable as an int.
+	mulAdd := func(a, b, c int) (int, bool) {
+		z := new(big.Int).Mul(big.NewInt(int64(b)), big.NewInt(int64(c)))
+		z.Add(z, big.NewInt(int64(a)))
+		return int(z.Int64()), z.IsInt64() && int64(int(z.Int64())) == z.Int64()
 	}
+	newStart, ok1 := mulAdd(r.start, r.step, start)
+	newStop, ok2 := mulAdd(r.start, r.step, end)
+	newStep, ok3 := mulAdd(0, r.step, step)
+	if ok1 && ok2 && ok3 {
+		return rangeValue{
+			start: newStart,
+			stop:  newStop,
+			step:  newStep,
+			len:   rangeLen(newStart, newStop, newStep),
+		}
+	}
+
+	// A bound or the step of the slice is not representable,
+	// though its elements are: describe the slice by its elements.
+	n := rangeLen(start, end, step) // number of selected indices
+	if n == 0 {
+		return rangeValue{start: 0, stop: 0, step: 1, len: 0}
+	}
+	first := r.start + r.step*start
+	if n == 1 {
+		if first == math.MaxInt {
+			return rangeValue{start: first, stop: first - 1, step: -1, len: 1}
+		}
+		return rangeValue{start: first, stop: first + 1, step: 1, len: 1}
+	}
+	newStep = r.step * step // the difference of two elements
+	last := first + newStep*(n-1)
+	stop := last // the exclusive bound saturates at the limits of int
+	if newStep > 0 && last < math.MaxInt {
+		stop = last + 1
+	} else if newStep < 0 && last > math.MinInt {
+		stop = last - 1
+	}
+	return rangeValue{start: first, stop: stop, step: newStep, len: n}
 }
 
 func (r rangeValue) Freeze() {} // immutable
